@@ -455,7 +455,8 @@ func (r *Run) opTables() {
 // table is decided entry by entry: (1) the parser switch of ast.go maps each Go operator token to the
 // action of that operator, per syntactic context; (2) the generator table `builtin` of run.go maps each
 // operator action to the generator of the same name; (3) `constOp` of cfg.go maps each operator action to
-// the constant folder of the same name.  A wrong cell (SUB_ASSIGN -> aAddAssign, aShr: shl) type-checks.
+// the constant folder of the same name, and `constCmp` maps each comparison action to the token handed to
+// constant.Compare (the contract of compareConst speaks of constCmp[n.action], so the cells are decided here).  A wrong cell (SUB_ASSIGN -> aAddAssign, aShr: shl) type-checks.
 func (r *Run) dispatchTables() {
 	p := r.L.ByName["interp"]
 	if p == nil {
@@ -477,7 +478,8 @@ func (r *Run) dispatchTables() {
 		wantConst["a"+o] = lower(o) + "Const"
 	}
 	tables := map[string]map[string]string{"builtin": wantGen, "constOp": wantConst,
-		"constBltn": {"bltnComplex": "complexConst", "bltnImag": "imagConst", "bltnReal": "realConst"}}
+		"constBltn": {"bltnComplex": "complexConst", "bltnImag": "imagConst", "bltnReal": "realConst"},
+		"constCmp": {"aEqual": "token.EQL", "aNotEqual": "token.NEQ", "aLower": "token.LSS", "aLowerEqual": "token.LEQ", "aGreater": "token.GTR", "aGreaterEqual": "token.GEQ"}}
 	found := map[string]bool{}
 	for _, f := range p.Syntax {
 		for _, d := range f.Decls {
